@@ -335,6 +335,16 @@ def _binds_something(p):
     return False
 
 
+def _is_debug_assert(st):
+    e = st.get("e") if st.get("k") == "semi" else st
+    if not isinstance(e, dict) or e.get("k") != "if" or e.get("else") is not None:
+        return False
+    if (e.get("mac") or "").split(">")[0] not in ("debug_assert", "debug_assert_eq", "debug_assert_ne"):
+        return False
+    c = e.get("cond") or {}
+    return c.get("k") == "lit" and c.get("lk") == "bool" and (c.get("mac") or "").startswith("$crate::cfg>debug_assert")
+
+
 def normalise_tree(n):
     if isinstance(n, list):
         return [normalise_tree(x) for x in n]
@@ -436,6 +446,12 @@ def normalise_tree(n):
         if r is not None:
             return r
     if k == "block":
+        # `debug_assert!(..)` / `debug_assert_eq!(..)` / `debug_assert_ne!(..)`: `if cfg!(debug_assertions) { .. }` is no
+        # code in the release configuration the properties speak about; the statement is dropped
+        if any(_is_debug_assert(st) for st in n.get("stmts", [])):
+            n["stmts"] = [st for st in n["stmts"] if not _is_debug_assert(st)]
+        if n.get("expr") is not None and _is_debug_assert(n["expr"]):
+            n["expr"] = None
         if control.beta_local_closures(n):
             n["stmts"] = normalise_tree(n["stmts"])
             n["expr"] = normalise_tree(n["expr"]) if n.get("expr") is not None else None
